@@ -344,33 +344,68 @@ def main():
         return None
 
     budget_shrink = 12 if tier == "quick" else 40
-    for d in sorted(viol_runs, key=lambda d: d["run"]):
+    # the counterfactual binaries are built once, up front (the examination below runs in threads)
+    for f in kf.get("findings", []):
+        if prop in f.get("properties", []) and f.get("counterfactual") and viol_runs:
+            cf_exe(f)
+
+    def examine(d):
+        """(harness problem | None, [(v, finding | None)]) for one violating run."""
         path = os.path.join(outdir, "replay_%s_%d_%d.json" % (prop, seed, d["run"]))
         use = exe_san if d.get("san") else exe
         vs = [v for v in d["viol"] if v["prop"] == prop]
         if not os.path.exists(path):
-            harness_problem = "replay file missing for run %d" % d["run"]
-            continue
+            return "replay file missing for run %d" % d["run"], []
         doc = json.load(open(path))
         doc["binary"] = "san" if d.get("san") else "plain"
         json.dump(doc, open(path, "w"))
+        out, hp = [], None
+        r1 = None
         for v in vs:
-            # once a class has several confirmed, unattributed violations, further runs of the
-            # same class add nothing to the verdict: count them, do not replay them one by one
-            could_be_known = any(prop in f.get("properties", []) and (not f.get("classes") or v["cls"] in f["classes"]) for f in kf.get("findings", []))
-            if not could_be_known and sum(1 for _, w, _ in new_violations if w["cls"] == v["cls"]) >= 5:
-                unexamined[v["cls"]] += 1
-                continue
             # gate: fresh-process replay must reproduce the same class
-            rc1, r1, _ = replay(use, path)
+            if r1 is None:
+                _, r1, _ = replay(use, path)
             if not has_viol(r1, prop, v["cls"]):
-                harness_problem = "violation %s/%s of run %d did not reproduce on replay (harness nondeterminism)" % (prop, v["cls"], d["run"])
+                hp = "violation %s/%s of run %d did not reproduce on replay (harness nondeterminism)" % (prop, v["cls"], d["run"])
                 continue
-            attributed = attribute(v, path)
+            out.append((v, attribute(v, path)))
+        return hp, out
+
+    ordered = sorted(viol_runs, key=lambda d: d["run"])
+    # Runs whose classes cannot belong to a known finding are examined in order and only
+    # until a class has several confirmed violations (each may cost seconds: a runaway
+    # loop); everything else is examined in parallel.
+    def could_be_known(v):
+        return any(prop in f.get("properties", []) and (not f.get("classes") or v["cls"] in f["classes"]) for f in kf.get("findings", []))
+    par, seq = [], []
+    for d in ordered:
+        vs = [v for v in d["viol"] if v["prop"] == prop]
+        (par if any(could_be_known(v) for v in vs) else seq).append(d)
+    results = {}
+    if par:
+        import concurrent.futures
+        with concurrent.futures.ThreadPoolExecutor(max_workers=NWORKERS) as ex:
+            for d, res in zip(par, ex.map(examine, par)):
+                results[d["run"]] = res
+    for d in seq:
+        vs = [v for v in d["viol"] if v["prop"] == prop]
+        if all(sum(1 for _, w, _ in new_violations if w["cls"] == v["cls"]) + sum(1 for r_ in results.values() for w, f_ in r_[1] if f_ is None and w["cls"] == v["cls"]) >= 5 for v in vs):
+            for v in vs:
+                unexamined[v["cls"]] += 1
+            continue
+        results[d["run"]] = examine(d)
+    for d in ordered:
+        if d["run"] not in results:
+            continue
+        hp, out = results[d["run"]]
+        if hp:
+            harness_problem = hp
+        path = os.path.join(outdir, "replay_%s_%d_%d.json" % (prop, seed, d["run"]))
+        for v, attributed in out:
             if attributed:
                 known_hit[(attributed["id"], attributed["what"])] += 1
-                continue
-            new_violations.append((d, v, path))
+            else:
+                new_violations.append((d, v, path))
     # crashes of workers: confirm by running that seed alone
     for idx, rc, err, which in crashes:
         use = exe_san if which == "san" else exe
